@@ -373,6 +373,34 @@ def sbytes_method(I, s, name, args, kwargs, node):
         if not isinstance(p.n, int):
             raise SymError("endswith symbolic suffix")
         return L.And(L.le(p.n, s.n), *[L.eq(s.at(s.n - p.n + k), p.at(k)) for k in range(p.n)])
+    if name in ("index", "find") and (isinstance(args[0], int) or L.is_z3(args[0])) and len(args) <= 2:
+        # first position >= start of one byte value: found at a fresh j with nothing before it, or nowhere
+        b = args[0]
+        start = args[1] if len(args) > 1 else 0
+        start = L.If(L.lt(start, 0), L.Max(s.n + start, 0), start)
+        j = I.ctx.fresh_int("idx")
+        root = getattr(s, "root", None) or s
+        off = getattr(s, "off", 0)
+        none = lambda lo_, hi_: L.ForAllInt(off + lo_, off + hi_, lambda u: L.ne(root.at(u), b), "u", pat=lambda u: root.at(u))
+        if I.ctx.choose([True, False], "byte-found?"):
+            I.ctx.assume(L.And(L.le(start, j), L.lt(j, s.n), L.eq(s.at(j), b), none(start, j)))
+            return j
+        I.ctx.assume(none(start, s.n))
+        if name == "find":
+            return -1
+        raise sx.SymRaise(ValueError, "subsection not found")
+    if name in ("ljust", "rjust"):
+        w = args[0]
+        fill = as_sbytes(args[1]) if len(args) > 1 else SBytes.from_concrete(b" ")
+        if not (isinstance(fill.n, int) and fill.n == 1):
+            raise SymError("bytes.%s fill" % name)
+        fb = fill.at(0)
+        n = L.Max(s.n, w)
+        if name == "ljust":
+            at = lambda k, s=s, fb=fb: L.If(L.lt(k, s.n), s.at(k), fb)
+        else:
+            at = lambda k, s=s, fb=fb, n=n: L.If(L.lt(k, n - s.n), fb, s.at(k - (n - s.n)))
+        return SBytes(n, at, (0, 256), "bytes")
     if name == "decode":
         raise SymError("bytes.decode on symbolic bytes")
     if name == "hex":
